@@ -1,7 +1,750 @@
-(* BindingProofs.v — lemmas about Model/Binding.v (property C18). *)
-From PG Require Import Common.Tactics Common.Tr Model.Binding.
+(* BindingProofs.v — the functor pipeline of Model/Binding.v binds exactly the effective arguments
+   (property C18): construction, later bindings and the call are related step by step to the
+   specification [supply]; the call finally made on the wrapped function is literally the
+   effective call. *)
+From PG Require Import Common.Tactics Common.Tr Model.Binding Proofs.BindingMaps.
 From Coq Require Import NArith.
 Local Open Scope N_scope.
 
-Lemma clone_keeps_state : forall st, clone_state st = st.
+Definition names (ps : list (name * option val)) : list name := map fst ps.
+
+Record wf_sig (s : sig) : Prop := {
+  wf_nodup : NoDup (names (params s));
+  wf_va : forall a, varargs s = Some a -> ~ In a (names (params s)) }.
+
+(* ---- small facts ---------------------------------------------------------------------------------- *)
+Lemma smem_sadd : forall s k k', smem k' (sadd k s) = N.eqb k' k || smem k' s.
+Proof. intros; unfold smem, sadd; apply kmem_kset. Qed.
+Lemma smem_sdel : forall s k k', smem k' (sdel k s) = negb (N.eqb k' k) && smem k' s.
+Proof. intros; unfold smem, sdel; apply kmem_kdel. Qed.
+Lemma smem_nil : forall k, smem k [] = false.
 Proof. reflexivity. Qed.
+
+Lemma existsb_names : forall (ps : list (name * option val)) k,
+  existsb (fun p => N.eqb (fst p) k) ps = true <-> In k (names ps).
+Proof.
+  induction ps as [|[n d] r IH]; intros k; simpl; [split; [discriminate|tauto]|].
+  rewrite orb_true_iff, IH, N.eqb_eq. tauto.
+Qed.
+Lemma is_param_in : forall s k, is_param s k = true <-> In k (names (params s)).
+Proof. intros; unfold is_param; apply existsb_names. Qed.
+Lemma names_params : forall s, names (params s) = names (pos s) ++ names (kwonly s).
+Proof. intros; unfold names, params; apply map_app. Qed.
+Lemma pos_is_param : forall s n, In n (names (pos s)) -> is_param s n = true.
+Proof. intros s n H; apply is_param_in; rewrite names_params; apply in_or_app; left; exact H. Qed.
+Lemma is_va_name : forall s k, is_va s k = true -> has_va s = true /\ va_name s = k.
+Proof.
+  unfold is_va, has_va, va_name; intros s k H; destruct (varargs s); [|discriminate].
+  apply N.eqb_eq in H; subst; auto.
+Qed.
+Lemma is_va_va_name : forall s, has_va s = true -> is_va s (va_name s) = true.
+Proof. unfold is_va, has_va, va_name; intros s H; destruct (varargs s); [apply N.eqb_refl|discriminate]. Qed.
+Lemma va_not_param : forall s k, wf_sig s -> is_va s k = true -> is_param s k = false.
+Proof.
+  intros s k W H. destruct (is_param s k) eqn:P; [|reflexivity].
+  apply is_param_in in P. unfold is_va in H. destruct (varargs s) eqn:V; [|discriminate].
+  apply N.eqb_eq in H; subst. exfalso; eapply wf_va; eauto.
+Qed.
+Lemma param_not_va : forall s k, wf_sig s -> is_param s k = true -> is_va s k = false.
+Proof. intros s k W P. destruct (is_va s k) eqn:V; [|reflexivity]. rewrite (va_not_param s k W V) in P; discriminate. Qed.
+Lemma nodup_app_l : forall {A} (l1 l2 : list A), NoDup (l1 ++ l2) -> NoDup l1.
+Proof.
+  induction l1 as [|a r IH]; intros l2 H; [constructor|].
+  simpl in H; inversion H; subst. constructor; [|eapply IH; eauto].
+  intros I; apply H2; apply in_or_app; left; exact I.
+Qed.
+Lemma nodup_pos : forall s, wf_sig s -> NoDup (names (pos s)).
+Proof. intros s W. pose proof (wf_nodup s W) as H. rewrite names_params in H. eapply nodup_app_l; eauto. Qed.
+Lemma is_va_false_neq : forall s k, has_va s = true -> is_va s k = false -> N.eqb (va_name s) k = false.
+Proof. unfold is_va, has_va, va_name; intros s k H V; destruct (varargs s); [exact V|discriminate]. Qed.
+Lemma no_va_is_va : forall s k, has_va s = false -> is_va s k = false.
+Proof. unfold is_va, has_va; intros s k H; destruct (varargs s); [discriminate|reflexivity]. Qed.
+
+Lemma same_scalar_eq : forall a b, same_scalar a b = true -> a = b.
+Proof. intros [x|x] [y|y]; simpl; try discriminate. intros H; apply Z.eqb_eq in H; subst; reflexivity. Qed.
+
+(* ---- positional binding ---------------------------------------------------------------------------- *)
+Lemma supply_pos_nil : forall ps ovr m, supply_pos ps [] ovr m = Ok m.
+Proof. intros [|[n d] r]; reflexivity. Qed.
+Lemma positional_names_nil : forall ps, positional_names ps [] = [].
+Proof. intros [|[n d] r]; reflexivity. Qed.
+Lemma bind_positional_nil : forall ps m, bind_positional ps [] m = m.
+Proof. intros [|[n d] r]; reflexivity. Qed.
+
+Lemma kmem_bind_positional : forall ps vs m k,
+  kmem k (bind_positional ps vs m) = smem k (positional_names ps vs) || kmem k m.
+Proof.
+  induction ps as [|[n d] r IH]; intros vs m k; simpl; [reflexivity|].
+  destruct vs as [|v vs']; [reflexivity|]. simpl.
+  rewrite IH, smem_sadd, kmem_kset. destruct (N.eqb k n), (smem k (positional_names r vs')); reflexivity.
+Qed.
+Lemma positional_names_in : forall ps vs k, smem k (positional_names ps vs) = true -> In k (names ps).
+Proof.
+  induction ps as [|[n d] r IH]; intros vs k; simpl; [discriminate|].
+  destruct vs as [|v vs']; [discriminate|]. rewrite smem_sadd, orb_true_iff, N.eqb_eq.
+  intros [H|H]; [left; auto|right; eapply IH; eauto].
+Qed.
+Lemma ksorted_bind_positional : forall ps vs m, ksorted m -> ksorted (bind_positional ps vs m).
+Proof.
+  induction ps as [|[n d] r IH]; intros vs m H; simpl; [assumption|].
+  destruct vs; [assumption|]. apply IH. apply ksorted_kset; assumption.
+Qed.
+
+(* with distinct parameter names, positional supply onto fresh names is plain positional binding *)
+Lemma supply_pos_fresh : forall ps vs ovr m, NoDup (names ps) ->
+  (forall n, In n (names ps) -> ovr = true \/ kmem n m = false) ->
+  supply_pos ps vs ovr m = Ok (bind_positional ps vs m).
+Proof.
+  induction ps as [|[n d] r IH]; intros vs ovr m ND F; simpl; [destruct vs; reflexivity|].
+  destruct vs as [|v vs']; [reflexivity|].
+  inversion ND; subst.
+  assert (kmem n m && negb ovr = false) as ->.
+  { destruct (F n (or_introl eq_refl)) as [-> | ->]; [apply andb_false_r|reflexivity]. }
+  apply IH; [assumption|]. intros n' Hn'.
+  destruct (F n' (or_intror Hn')) as [?|Hm]; [left; assumption|right].
+  rewrite kmem_kset, Hm, orb_false_r. apply N.eqb_neq. intros ->. contradiction.
+Qed.
+
+(* ---- construction ------------------------------------------------------------------------------------ *)
+Definition lift_eff (r : result eff) : result (kmap val * option (list val)) :=
+  match r with Ok e => Ok (enamed e, evar e) | Err x => Err x end.
+
+Lemma ctor_kwargs_supply : forall s kws bk vb given,
+  (forall k, smem k given = true -> if is_va s k then vb <> None else kmem k bk = true) ->
+  ctor_kwargs s kws bk vb = lift_eff (supply_kw s kws false false given {| enamed := bk; evar := vb |}).
+Proof.
+  intros s; induction kws as [|[k v] r IH]; intros bk vb given H; simpl; [reflexivity|].
+  destruct (smem k given) eqn:G.
+  - specialize (H k G). destruct (is_va s k) eqn:V.
+    + destruct vb; [reflexivity|contradiction].
+    + rewrite H; reflexivity.
+  - destruct (is_va s k) eqn:V.
+    + destruct vb as [l0|]; [reflexivity|].
+      destruct (vals_of_val v) as [l|]; [|reflexivity].
+      apply IH. intros k' G'. rewrite smem_sadd in G'.
+      destruct (is_va s k') eqn:V'; [discriminate|].
+      destruct (N.eqb k' k) eqn:E; [apply N.eqb_eq in E; subst; congruence|].
+      simpl in G'. specialize (H k' G'). rewrite V' in H. exact H.
+    + rewrite andb_true_r. destruct (kmem k bk) eqn:M; [reflexivity|].
+      unfold accepts_key, is_field. rewrite V, orb_false_r.
+      destruct (is_param s k || has_kw s) eqn:P; [|reflexivity].
+      apply IH. intros k' G'. rewrite smem_sadd in G'.
+      destruct (N.eqb k' k) eqn:E.
+      * apply N.eqb_eq in E; subst. rewrite V. rewrite kmem_kset, N.eqb_refl; reflexivity.
+      * simpl in G'. specialize (H k' G'). destruct (is_va s k'); [exact H|].
+        rewrite kmem_kset, H. apply orb_true_r.
+Qed.
+
+Lemma given_positional_bound : forall s vs k, wf_sig s ->
+  smem k (positional_names (pos s) vs) = true ->
+  is_va s k = false /\ kmem k (bind_positional (pos s) vs []) = true.
+Proof.
+  intros s vs k W H. split.
+  - apply param_not_va; [assumption|]. apply pos_is_param. eapply positional_names_in; eauto.
+  - rewrite kmem_bind_positional, H; reflexivity.
+Qed.
+
+Lemma functor_ctor_supply : forall s c ov ie, wf_sig s ->
+  functor_ctor s c ov ie =
+  match supply s eff0 c false false with
+  | Ok e => Ok (ctor_finish s (enamed e) (evar e) ov ie)
+  | Err x => Err x
+  end.
+Proof.
+  intros s c ov ie W. unfold functor_ctor, supply, eff0; simpl.
+  rewrite supply_pos_fresh; [|apply nodup_pos; assumption|intros; right; reflexivity].
+  destruct (is_nil (skipn (length (pos s)) (cpos c))) eqn:O; simpl.
+  - rewrite (ctor_kwargs_supply s (ckw c) _ None (positional_names (pos s) (cpos c))).
+    + destruct (supply_kw s (ckw c) false false _ _); reflexivity.
+    + intros k G. destruct (given_positional_bound s _ k W G) as [V M]. rewrite V; exact M.
+  - destruct (has_va s) eqn:HV; simpl; [|reflexivity].
+    rewrite (ctor_kwargs_supply s (ckw c) _ (Some (skipn (length (pos s)) (cpos c)))
+               (sadd (va_name s) (positional_names (pos s) (cpos c)))).
+    + destruct (supply_kw s (ckw c) false false _ _); reflexivity.
+    + intros k G. rewrite smem_sadd in G.
+      destruct (is_va s k) eqn:V; [discriminate|].
+      rewrite (proj2 (N.eqb_neq _ _)) in G.
+      * simpl in G. apply (given_positional_bound s _ k W G).
+      * intros ->. rewrite (is_va_va_name s HV) in V; discriminate.
+Qed.
+
+(* ---- invariants of the specification side ------------------------------------------------------------ *)
+Record eff_ok (s : sig) (e : eff) : Prop := {
+  eo_sorted : ksorted (enamed e);
+  eo_nova : forall k, is_va s k = true -> kmem k (enamed e) = false;
+  eo_noevar : has_va s = false -> evar e = None }.
+
+Lemma eff0_ok : forall s, eff_ok s eff0.
+Proof. intros s; constructor; simpl; [constructor|reflexivity|reflexivity]. Qed.
+
+Lemma supply_pos_keys : forall ps vs ovr m m', supply_pos ps vs ovr m = Ok m' ->
+  (ksorted m -> ksorted m') /\ (forall k, kmem k m' = true -> kmem k m = true \/ In k (names ps)).
+Proof.
+  induction ps as [|[n d] r IH]; intros vs ovr m m' H; simpl in H.
+  - destruct vs; inversion H; subst; split; auto.
+  - destruct vs as [|v vs']; [inversion H; subst; split; auto|].
+    destruct (kmem n m && negb ovr); [discriminate|].
+    destruct (IH _ _ _ _ H) as [S K]. split.
+    + intros Sm. apply S. apply ksorted_kset; assumption.
+    + intros k Hk. destruct (K k Hk) as [Q|Q].
+      * rewrite kmem_kset in Q. apply orb_true_iff in Q. destruct Q as [Q|Q]; [right; left; apply N.eqb_eq in Q; simpl; auto|left; assumption].
+      * right; right; assumption.
+Qed.
+
+Lemma supply_kw_ok : forall s kws ovr drop given e e', eff_ok s e ->
+  supply_kw s kws ovr drop given e = Ok e' -> eff_ok s e'.
+Proof.
+  intros s; induction kws as [|[k v] r IH]; intros ovr drop given e e' OK H; simpl in H.
+  - inversion H; subst; assumption.
+  - destruct (smem k given); [discriminate|].
+    destruct (is_va s k) eqn:V.
+    + assert (forall l, eff_ok s {| enamed := enamed e; evar := Some l |}) as OK'.
+      { intros l; constructor; simpl; [apply OK|apply OK|].
+        intros HV. rewrite (no_va_is_va s k HV) in V; discriminate. }
+      destruct (evar e), ovr; try discriminate;
+        (destruct (vals_of_val v); [eapply IH; [apply OK'|exact H]|discriminate]).
+    + destruct (kmem k (enamed e) && negb ovr); [discriminate|].
+      destruct (is_param s k || has_kw s).
+      * eapply IH; [|exact H]. constructor; simpl.
+        -- apply ksorted_kset; apply OK.
+        -- intros k' V'. rewrite kmem_kset. rewrite (eo_nova s e OK k' V'), orb_false_r.
+           apply N.eqb_neq; intros ->; congruence.
+        -- apply OK.
+      * destruct drop; [eapply IH; eauto|discriminate].
+Qed.
+
+Lemma supply_ok : forall s e c ovr drop e', wf_sig s -> eff_ok s e -> supply s e c ovr drop = Ok e' -> eff_ok s e'.
+Proof.
+  intros s e c ovr drop e' W OK H. unfold supply in H.
+  destruct (supply_pos (pos s) (cpos c) ovr (enamed e)) as [m|] eqn:P; [|discriminate].
+  destruct (supply_pos_keys _ _ _ _ _ P) as [S K].
+  match type of H with match ?ev with _ => _ end = _ => destruct ev as [v|] eqn:EV; [|discriminate] end.
+  eapply supply_kw_ok; [|exact H]. constructor; simpl.
+  - apply S; apply OK.
+  - intros k V. destruct (kmem k m) eqn:M; [|reflexivity].
+    destruct (K k M) as [Q|Q]; [rewrite (eo_nova s e OK k V) in Q; discriminate|].
+    pose proof (pos_is_param s k Q) as P1. rewrite (va_not_param s k W V) in P1. discriminate.
+  - intros HV. rewrite HV in EV.
+    destruct (is_nil (skipn (length (pos s)) (cpos c))); [inversion EV; apply OK; assumption|].
+    destruct drop; [inversion EV; apply OK; assumption|discriminate].
+Qed.
+
+Lemma supply_lates_ok : forall s lates e e', wf_sig s -> eff_ok s e -> supply_lates s e lates = Ok e' -> eff_ok s e'.
+Proof.
+  intros s; induction lates as [|kv r IH]; intros e e' W OK H; simpl in H.
+  - inversion H; subst; assumption.
+  - destruct (supply s e {| cpos := []; ckw := [kv] |} true false) as [e1|] eqn:S1; [|discriminate].
+    eapply IH; [assumption| |exact H]. eapply supply_ok; eauto.
+Qed.
+
+(* ---- the invariant tying the functor's bookkeeping to the effective arguments ------------------------- *)
+Record rel (s : sig) (st : fstate) (e : eff) : Prop := {
+  r_spec : forall k, is_va s k = false -> smem k (spec st) = kmem k (enamed e);
+  r_va : has_va s = true -> smem (va_name s) (spec st) = match evar e with Some _ => true | None => false end;
+  r_attrs : forall k, kmem k (enamed e) = true -> kget k (attrs st) = kget k (enamed e);
+  r_unbound : forall k, kmem k (enamed e) = false -> kget k (attrs st) = default_of s k;
+  r_vattr : vattr st = match evar e with Some l => l | None => [] end;
+  r_sorted : ksorted (attrs st);
+  r_nova : forall k, is_va s k = true -> kmem k (attrs st) = false }.
+
+Lemma find_not_in : forall (ps : list (name * option val)) k, ~ In k (names ps) ->
+  find (fun p => N.eqb (fst p) k) ps = None.
+Proof.
+  induction ps as [|[n d] r IH]; intros k H; simpl; [reflexivity|].
+  destruct (N.eqb n k) eqn:E; [apply N.eqb_eq in E; subst; exfalso; apply H; left; reflexivity|].
+  apply IH. intros I; apply H; right; exact I.
+Qed.
+
+Lemma fill_defaults_get : forall ps m k, NoDup (names ps) ->
+  kget k (fill_defaults ps m) =
+  match kget k m with
+  | Some v => Some v
+  | None => match find (fun p => N.eqb (fst p) k) ps with Some (_, d) => d | None => None end
+  end.
+Proof.
+  induction ps as [|[n [dv|]] r IH]; intros m k ND; simpl.
+  - destruct (kget k m); reflexivity.
+  - inversion ND; subst. destruct (kmem n m) eqn:M.
+    + rewrite IH by assumption. destruct (kget k m) eqn:G; [reflexivity|].
+      destruct (N.eqb n k) eqn:E; [|reflexivity].
+      apply N.eqb_eq in E; subst. unfold kmem in M; rewrite G in M; discriminate.
+    + rewrite IH by assumption. rewrite kget_kset. destruct (N.eqb k n) eqn:E.
+      * apply N.eqb_eq in E; subst. rewrite N.eqb_refl. unfold kmem in M. destruct (kget n m); [discriminate|reflexivity].
+      * rewrite N.eqb_sym, E. reflexivity.
+  - inversion ND; subst. rewrite IH by assumption. destruct (kget k m) eqn:G; [reflexivity|].
+    destruct (N.eqb n k) eqn:E; [|reflexivity].
+    apply N.eqb_eq in E; subst. rewrite find_not_in by assumption. reflexivity.
+Qed.
+
+Lemma ksorted_fill_defaults : forall ps m, ksorted m -> ksorted (fill_defaults ps m).
+Proof.
+  induction ps as [|[n [dv|]] r IH]; intros m H; simpl; [assumption| |apply IH; assumption].
+  destruct (kmem n m); apply IH; [assumption|apply ksorted_kset; assumption].
+Qed.
+
+Lemma ctor_finish_rel : forall s e ov ie, wf_sig s -> eff_ok s e ->
+  rel s (ctor_finish s (enamed e) (evar e) ov ie) e.
+Proof.
+  intros s e ov ie W OK. unfold ctor_finish.
+  destruct (classify (params s) (enamed e) [] _) as [d nd]. constructor; simpl.
+  - intros k V. destruct (evar e) eqn:EV.
+    + rewrite smem_sadd. unfold smem. rewrite kmem_keyset.
+      destruct (has_va s) eqn:HV; [|rewrite (eo_noevar s e OK HV) in EV; discriminate].
+      rewrite N.eqb_sym, (is_va_false_neq s k HV V). reflexivity.
+    + unfold smem. apply kmem_keyset.
+  - intros HV. destruct (evar e) eqn:EV.
+    + rewrite smem_sadd, N.eqb_refl. reflexivity.
+    + unfold smem. rewrite kmem_keyset. apply (eo_nova s e OK). apply is_va_va_name; assumption.
+  - intros k M. rewrite fill_defaults_get by apply W. unfold kmem in M. destruct (kget k (enamed e)); [reflexivity|discriminate].
+  - intros k M. rewrite fill_defaults_get by apply W. unfold kmem in M. destruct (kget k (enamed e)); [discriminate|reflexivity].
+  - reflexivity.
+  - apply ksorted_fill_defaults. apply OK.
+  - intros k V. unfold kmem. rewrite fill_defaults_get by apply W.
+    pose proof (eo_nova s e OK k V) as M. unfold kmem in M. destruct (kget k (enamed e)); [discriminate|].
+    rewrite find_not_in; [reflexivity|]. intros I. apply is_param_in in I. rewrite (va_not_param s k W V) in I. discriminate.
+Qed.
+
+(* ---- later bindings ---------------------------------------------------------------------------------- *)
+Lemma supply_single : forall s e k v,
+  supply s e {| cpos := []; ckw := [(k, v)] |} true false =
+  if is_va s k then
+    match vals_of_val v with
+    | Some l => Ok {| enamed := enamed e; evar := Some l |}
+    | None => Err ETypeError
+    end
+  else if is_param s k || has_kw s then Ok {| enamed := kset k v (enamed e); evar := evar e |}
+  else Err ETypeError.
+Proof.
+  intros. unfold supply; simpl. rewrite skipn_nil, supply_pos_nil, positional_names_nil; simpl.
+  destruct (is_va s k).
+  - destruct (evar e); destruct (vals_of_val v); reflexivity.
+  - rewrite andb_false_r. destruct (is_param s k || has_kw s); reflexivity.
+Qed.
+
+Lemma rel_set_named : forall s st e k v a' d n, rel s st e -> is_va s k = false ->
+  kget k a' = Some v -> (forall k', k' <> k -> kget k' a' = kget k' (attrs st)) -> ksorted a' ->
+  rel s {| attrs := a'; vattr := vattr st; spec := sadd k (spec st); dflt := d; nond := n; f_ov := f_ov st; f_ie := f_ie st |}
+        {| enamed := kset k v (enamed e); evar := evar e |}.
+Proof.
+  intros s st e k v a' d n R V G O S. constructor; simpl.
+  - intros k' V'. rewrite smem_sadd, kmem_kset, (r_spec s st e R k' V'). reflexivity.
+  - intros HV. rewrite smem_sadd, (is_va_false_neq s k HV V). simpl. apply (r_va s st e R HV).
+  - intros k' M. rewrite kget_kset. destruct (N.eqb k' k) eqn:E.
+    + apply N.eqb_eq in E; subst. exact G.
+    + rewrite kmem_kset, E in M. simpl in M. rewrite O by (apply N.eqb_neq; exact E). apply (r_attrs s st e R k' M).
+  - intros k' M. rewrite kmem_kset in M. apply orb_false_iff in M. destruct M as [E M].
+    rewrite O by (apply N.eqb_neq; exact E). apply (r_unbound s st e R k' M).
+  - apply (r_vattr s st e R).
+  - exact S.
+  - intros k' V'. unfold kmem. destruct (N.eqb k' k) eqn:E; [apply N.eqb_eq in E; subst; congruence|].
+    rewrite O by (apply N.eqb_neq; exact E). apply (r_nova s st e R k' V').
+Qed.
+
+Lemma rel_set_va : forall s st e k l d n, rel s st e -> is_va s k = true ->
+  rel s {| attrs := attrs st; vattr := l; spec := sadd k (spec st); dflt := d; nond := n; f_ov := f_ov st; f_ie := f_ie st |}
+        {| enamed := enamed e; evar := Some l |}.
+Proof.
+  intros s st e k l d n R V. destruct (is_va_name s k V) as [HV EQ]. constructor; simpl.
+  - intros k' V'. rewrite smem_sadd. rewrite (proj2 (N.eqb_neq k' k)); [apply (r_spec s st e R k' V')|intros ->; congruence].
+  - intros _. rewrite smem_sadd, EQ, N.eqb_refl. reflexivity.
+  - apply (r_attrs s st e R).
+  - apply (r_unbound s st e R).
+  - reflexivity.
+  - apply (r_sorted s st e R).
+  - apply (r_nova s st e R).
+Qed.
+
+Lemma late_one_rel : forall q s st e k v, wf_sig s -> rel s st e ->
+  accepts_key s k = true -> q_noop_rebind q = false ->
+  match late_one q s st k v, supply s e {| cpos := []; ckw := [(k, v)] |} true false with
+  | Ok st', Ok e' => rel s st' e'
+  | Err a, Err b => a = b
+  | _, _ => False
+  end.
+Proof.
+  intros q s st e k v W R A Q. rewrite supply_single. unfold late_one. rewrite Q.
+  destruct (is_va s k) eqn:V.
+  - destruct (vals_of_val v) as [l|]; [|reflexivity].
+    unfold on_change, set_vattr; simpl. apply rel_set_va; assumption.
+  - rewrite A. unfold accepts_key, is_field in A. rewrite V, orb_false_r in A. rewrite A.
+    assert (rel s (on_change (set_attr st k v) k match default_of s k with Some dv => val_eqb dv v | None => false end)
+                {| enamed := kset k v (enamed e); evar := evar e |}) as Changed.
+    { unfold on_change, set_attr; simpl. apply rel_set_named; try assumption.
+      - apply kget_kset_same.
+      - intros; apply kget_kset_other; assumption.
+      - apply ksorted_kset. apply (r_sorted s st e R). }
+    destruct (kget k (attrs st)) as [old|] eqn:G; [|exact Changed].
+    destruct (same_scalar old v) eqn:SS; [|exact Changed].
+    apply same_scalar_eq in SS; subst old.
+    unfold mark_specified. apply rel_set_named; try assumption; [reflexivity|apply (r_sorted s st e R)].
+Qed.
+
+Lemma late_all_rel : forall q s lates st e, wf_sig s -> eff_ok s e -> rel s st e ->
+  Forall (fun kv => accepts_key s (fst kv) = true) lates -> q_noop_rebind q = false ->
+  match late_all q s st lates, supply_lates s e lates with
+  | Ok st', Ok e' => rel s st' e' /\ eff_ok s e'
+  | Err a, Err b => a = b
+  | _, _ => False
+  end.
+Proof.
+  intros q s; induction lates as [|[k v] r IH]; intros st e W OK R F Q; simpl.
+  - split; assumption.
+  - inversion F; subst. pose proof (late_one_rel q s st e k v W R H1 Q) as L.
+    destruct (late_one q s st k v) as [st1|a] eqn:L1;
+      destruct (supply s e {| cpos := []; ckw := [(k, v)] |} true false) as [e1|b] eqn:S1; try contradiction; [|exact L].
+    apply IH; try assumption. eapply supply_ok; eauto.
+Qed.
+
+(* ---- the call ------------------------------------------------------------------------------------------- *)
+Lemma bound_kwargs_are_effective : forall s st e, eff_ok s e -> rel s st e ->
+  kfilter (fun k => smem k (spec st)) (attrs st) = enamed e.
+Proof.
+  intros s st e OK R. apply kmap_ext; [apply ksorted_kfilter; apply (r_sorted s st e R)|apply OK|].
+  intros k. rewrite kget_kfilter. destruct (is_va s k) eqn:V.
+  - pose proof (r_nova s st e R k V) as A. pose proof (eo_nova s e OK k V) as B. unfold kmem in A, B.
+    destruct (kget k (attrs st)); [discriminate|]. destruct (kget k (enamed e)); [discriminate|].
+    destruct (smem k (spec st)); reflexivity.
+  - rewrite (r_spec s st e R k V). destruct (kmem k (enamed e)) eqn:M.
+    + apply (r_attrs s st e R k M).
+    + unfold kmem in M. destruct (kget k (enamed e)); [discriminate|reflexivity].
+Qed.
+
+Lemma bound_varargs_are_effective : forall s st e, eff_ok s e -> rel s st e ->
+  (if has_va s && smem (va_name s) (spec st) then Some (vattr st) else None) = evar e.
+Proof.
+  intros s st e OK R. destruct (has_va s) eqn:HV; simpl.
+  - rewrite (r_va s st e R HV), (r_vattr s st e R). destruct (evar e); reflexivity.
+  - symmetry; apply OK; assumption.
+Qed.
+
+Lemma supply_pos_err : forall ps vs ovr m x, supply_pos ps vs ovr m = Err x -> x = ETypeError.
+Proof.
+  induction ps as [|[n d] r IH]; intros vs ovr m x H; simpl in H; [destruct vs; discriminate|].
+  destruct vs as [|v vs']; [discriminate|]. destruct (kmem n m && negb ovr); [inversion H; reflexivity|eapply IH; eauto].
+Qed.
+Lemma supply_pos_result : forall ps vs ovr m m', supply_pos ps vs ovr m = Ok m' -> m' = bind_positional ps vs m.
+Proof.
+  induction ps as [|[n d] r IH]; intros vs ovr m m' H; simpl in H; [destruct vs; inversion H; reflexivity|].
+  destruct vs as [|v vs']; [inversion H; reflexivity|]. destruct (kmem n m && negb ovr); [discriminate|]. simpl. eapply IH; eauto.
+Qed.
+
+Lemma call_positional_supply_pos : forall ps vs sp ovr K, NoDup (names ps) ->
+  (forall n, In n (names ps) -> smem n sp = kmem n K) ->
+  call_positional ps vs sp ovr K = supply_pos ps vs ovr K.
+Proof.
+  induction ps as [|[n d] r IH]; intros vs sp ovr K ND H; simpl; [destruct vs; reflexivity|].
+  destruct vs as [|v vs']; [reflexivity|]. inversion ND; subst.
+  rewrite (H n (or_introl eq_refl)). destruct (kmem n K && negb ovr); [reflexivity|].
+  apply IH; [assumption|]. intros n' I. rewrite kmem_kset, (H n' (or_intror I)).
+  rewrite (proj2 (N.eqb_neq n' n)); [reflexivity|intros ->; contradiction].
+Qed.
+
+Lemma call_kwargs_supply_kw : forall s kws sp given given' ovr ie K Kv ev,
+  NoDup (map fst kws) -> (forall k, In k (map fst kws) -> is_va s k = false) ->
+  (forall k, In k (map fst kws) -> smem k given = smem k given') ->
+  (forall k, In k (map fst kws) -> smem k given = false -> smem k sp = kmem k K) ->
+  call_kwargs s kws sp given ovr ie K Kv =
+  match supply_kw s kws ovr ie given' {| enamed := K; evar := ev |} with
+  | Ok e' => Ok (enamed e', Kv)
+  | Err x => Err x
+  end.
+Proof.
+  intros s; induction kws as [|[k v] r IH]; intros sp given given' ovr ie K Kv ev ND NV G1 G2; simpl; [reflexivity|].
+  inversion ND; subst. simpl in *.
+  rewrite <- (G1 k (or_introl eq_refl)). destruct (smem k given) eqn:G; [reflexivity|].
+  rewrite (NV k (or_introl eq_refl)). rewrite (G2 k (or_introl eq_refl) G).
+  destruct (kmem k K && negb ovr); [reflexivity|].
+  assert (forall k', In k' (map fst r) -> N.eqb k' k = false) as NE.
+  { intros k' I. apply N.eqb_neq. intros ->. contradiction. }
+  destruct (is_param s k || has_kw s).
+  - apply IH; auto.
+    + intros k' I. rewrite smem_sadd, (NE k' I). simpl. auto.
+    + intros k' I Gk. rewrite kmem_kset, (NE k' I). simpl. auto.
+  - destruct ie; [|reflexivity]. apply IH; auto.
+    intros k' I. rewrite smem_sadd, (NE k' I). simpl. auto.
+Qed.
+
+Lemma supply_kw_evar : forall s kws ovr drop given e e',
+  (forall k, In k (map fst kws) -> is_va s k = false) ->
+  supply_kw s kws ovr drop given e = Ok e' -> evar e' = evar e.
+Proof.
+  intros s; induction kws as [|[k v] r IH]; intros ovr drop given e e' NV H; simpl in H.
+  - inversion H; reflexivity.
+  - simpl in NV. destruct (smem k given); [discriminate|].
+    rewrite (NV k (or_introl eq_refl)) in H.
+    destruct (kmem k (enamed e) && negb ovr); [discriminate|].
+    destruct (is_param s k || has_kw s).
+    + apply IH in H; auto.
+    + destruct drop; [|discriminate]. apply IH in H; auto.
+Qed.
+
+Lemma functor_call_args_supply : forall s st e c ovo ieo,
+  wf_sig s -> eff_ok s e -> rel s st e ->
+  NoDup (map fst (ckw c)) -> (forall k, In k (map fst (ckw c)) -> is_va s k = false) ->
+  functor_call_args s st c ovo ieo =
+  match supply s e c (match ovo with Some b => b | None => f_ov st end) (match ieo with Some b => b | None => f_ie st end) with
+  | Err x => Err x
+  | Ok e' => match list_args (pos s) (enamed e') with
+             | (Some la, K) => Ok {| cpos := la ++ match evar e' with Some l => l | None => [] end; ckw := K |}
+             | (None, _) => Err ETypeError
+             end
+  end.
+Proof.
+  intros s st e c ovo ieo W OK R ND NV.
+  unfold functor_call_args, supply.
+  set (override := match ovo with Some b => b | None => f_ov st end).
+  set (ie := match ieo with Some b => b | None => f_ie st end).
+  rewrite (bound_kwargs_are_effective s st e OK R).
+  rewrite (bound_varargs_are_effective s st e OK R).
+  set (over := skipn (length (pos s)) (cpos c)).
+  set (given0 := positional_names (pos s) (cpos c)).
+  rewrite call_positional_supply_pos;
+    [|apply nodup_pos; assumption
+     |intros n I; apply (r_spec s st e R); apply param_not_va; [assumption|apply pos_is_param; assumption]].
+  destruct (supply_pos (pos s) (cpos c) override (enamed e)) as [m|x] eqn:P.
+  2:{ apply supply_pos_err in P; subst x.
+      destruct (negb (is_nil over) && negb (has_va s) && negb ie); [reflexivity|].
+      destruct (negb (is_nil (if has_va s then over else [])) && negb override && smem (va_name s) (spec st)); reflexivity. }
+  pose proof (supply_pos_result _ _ _ _ _ P) as Pm.
+  assert (forall Kv ev,
+            call_kwargs s (ckw c) (spec st) given0 override ie m Kv =
+            match supply_kw s (ckw c) override ie
+                    (if negb (is_nil over) && has_va s then sadd (va_name s) given0 else given0)
+                    {| enamed := m; evar := ev |} with
+            | Ok e' => Ok (enamed e', Kv) | Err x => Err x end) as CK.
+  { intros Kv ev. apply call_kwargs_supply_kw; try assumption.
+    - intros k I. destruct (negb (is_nil over) && has_va s) eqn:C; [|reflexivity].
+      apply andb_true_iff in C. destruct C as [_ HV].
+      rewrite smem_sadd, N.eqb_sym, (is_va_false_neq s k HV (NV k I)). reflexivity.
+    - intros k I G. rewrite (r_spec s st e R k (NV k I)). subst m.
+      rewrite kmem_bind_positional. fold given0. rewrite G. reflexivity. }
+  destruct (has_va s) eqn:HV.
+  - (* the function has *args *)
+    rewrite (r_va s st e R HV). simpl.
+    destruct (is_nil over) eqn:O; simpl.
+    + rewrite (CK _ (evar e)); simpl. destruct (supply_kw s (ckw c) override ie given0 _) as [e'|x] eqn:SK; [|reflexivity].
+      rewrite (supply_kw_evar _ _ _ _ _ _ _ NV SK). simpl.
+      destruct (list_args (pos s) (enamed e')) as [[la|] K3]; reflexivity.
+    + destruct (evar e) as [l|] eqn:EV, override eqn:OV; simpl; try reflexivity;
+        rewrite (CK _ (Some over)); simpl;
+        (destruct (supply_kw s (ckw c) _ ie _ _) as [e'|x] eqn:SK; [|reflexivity]);
+        rewrite (supply_kw_evar _ _ _ _ _ _ _ NV SK); simpl;
+        (destruct (list_args (pos s) (enamed e')) as [[la|] K3]; [|reflexivity]);
+        (destruct over; [discriminate|reflexivity]).
+  - (* no *args: surplus positional values are an error unless ignore_extra_args *)
+    pose proof (eo_noevar s e OK HV) as EV. rewrite EV. simpl.
+    rewrite andb_false_r. simpl.
+    destruct (is_nil over) eqn:O; simpl.
+    + rewrite (CK _ None); simpl. destruct (supply_kw s (ckw c) override ie given0 _) as [e'|x] eqn:SK; [|reflexivity].
+      rewrite (supply_kw_evar _ _ _ _ _ _ _ NV SK). simpl.
+      destruct (list_args (pos s) (enamed e')) as [[la|] K3]; reflexivity.
+    + destruct ie eqn:IE; simpl; [|reflexivity].
+      rewrite (CK _ None); simpl. destruct (supply_kw s (ckw c) override true given0 _) as [e'|x] eqn:SK; [|reflexivity].
+      rewrite (supply_kw_evar _ _ _ _ _ _ _ NV SK). simpl.
+      destruct (list_args (pos s) (enamed e')) as [[la|] K3]; reflexivity.
+Qed.
+
+(* ---- a missing positional parameter is a TypeError however the call is written ------------------------- *)
+Lemma zip_pos_nil : forall ps acc, zip_pos ps [] acc = (acc, []).
+Proof. intros [|[n d] r] acc; reflexivity. Qed.
+
+Lemma bind_kw_err : forall s kws asg extra x, bind_kw s kws asg extra = Err x -> x = ETypeError.
+Proof.
+  intros s; induction kws as [|[k v] r IH]; intros asg extra x H; simpl in H; [discriminate|].
+  destruct (is_param s k).
+  - destruct (kmem k asg); [inversion H; reflexivity|eapply IH; eauto].
+  - destruct (has_kw s); [|inversion H; reflexivity].
+    destruct (kmem k extra); [inversion H; reflexivity|eapply IH; eauto].
+Qed.
+Lemma fill_err : forall ps asg x, fill ps asg = Err x -> x = ETypeError.
+Proof.
+  induction ps as [|[n d] r IH]; intros asg x H; simpl in H; [discriminate|].
+  destruct (match kget n asg with Some v => Some v | None => d end); [|inversion H; reflexivity].
+  destruct (fill r asg) eqn:F; [discriminate|]. inversion H; subst. eapply IH; eauto.
+Qed.
+Lemma py_bind_err : forall s c x, py_bind s c = Err x -> x = ETypeError.
+Proof.
+  intros s c x H. unfold py_bind in H. destruct (zip_pos (pos s) (cpos c) []) as [asg over].
+  destruct (negb (is_nil over) && negb (has_va s)); [inversion H; reflexivity|].
+  destruct (bind_kw s (ckw c) asg []) as [[asg' extra]|y] eqn:B; [|inversion H; subst; eapply bind_kw_err; eauto].
+  destruct (fill (params s) asg') eqn:F; [discriminate|]. inversion H; subst. eapply fill_err; eauto.
+Qed.
+
+Lemma bind_kw_keeps_unbound : forall s kws asg extra asg' extra' n,
+  bind_kw s kws asg extra = Ok (asg', extra') -> kget n asg = None -> ~ In n (map fst kws) -> kget n asg' = None.
+Proof.
+  intros s; induction kws as [|[k v] r IH]; intros asg extra asg' extra' n H G NI; simpl in *.
+  - inversion H; subst; assumption.
+  - destruct (is_param s k).
+    + destruct (kmem k asg); [discriminate|]. eapply IH; [exact H| |tauto].
+      rewrite kget_kset_other; [assumption|]. intros ->; tauto.
+    + destruct (has_kw s); [|discriminate]. destruct (kmem k extra); [discriminate|]. eapply IH; [exact H|assumption|tauto].
+Qed.
+Lemma kget_none_not_in : forall {A} (m : kmap A) n, kget n m = None -> ~ In n (map fst m).
+Proof.
+  intros A; induction m as [|[k v] r IH]; intros n H; simpl in *; [tauto|].
+  destruct (N.eqb n k) eqn:E; [discriminate|]. apply N.eqb_neq in E. intros [Q|Q]; [congruence|]. eapply IH; eauto.
+Qed.
+Lemma fill_missing : forall ps asg n, In (n, None) ps -> kget n asg = None -> fill ps asg = Err ETypeError.
+Proof.
+  induction ps as [|[n0 d0] r IH]; intros asg n I G; simpl in *; [tauto|].
+  destruct I as [I|I].
+  - inversion I; subst. rewrite G. reflexivity.
+  - destruct (match kget n0 asg with Some v => Some v | None => d0 end); [|reflexivity].
+    rewrite (IH asg n I G). reflexivity.
+Qed.
+Lemma list_args_none : forall ps K K', NoDup (names ps) -> list_args ps K = (None, K') ->
+  exists n, In (n, None) ps /\ kget n K = None.
+Proof.
+  induction ps as [|[n d] r IH]; intros K K' ND H; simpl in H; [discriminate|].
+  inversion ND; subst.
+  destruct (list_args r (kdel n K)) as [rest K1] eqn:L.
+  destruct (kget n K) as [v|] eqn:G.
+  - destruct rest as [l|]; [discriminate|].
+    destruct (IH _ _ H3 L) as [n' [I G']]. exists n'. split; [right; assumption|].
+    rewrite kget_kdel in G'. destruct (N.eqb n' n) eqn:E; [|assumption].
+    apply N.eqb_eq in E; subst. exfalso. apply H2. change n with (fst (n, @None val)). apply in_map. assumption.
+  - destruct d as [dv|].
+    + destruct rest as [l|]; [discriminate|].
+      destruct (IH _ _ H3 L) as [n' [I G']]. exists n'. split; [right; assumption|].
+      rewrite kget_kdel in G'. destruct (N.eqb n' n) eqn:E; [|assumption].
+      apply N.eqb_eq in E; subst. assumption.
+    + exists n. split; [left; reflexivity|assumption].
+Qed.
+
+Lemma missing_positional_fails : forall s m K, wf_sig s -> list_args (pos s) m = (None, K) ->
+  py_bind s {| cpos := []; ckw := m |} = Err ETypeError.
+Proof.
+  intros s m K W L. destruct (list_args_none _ _ _ (nodup_pos s W) L) as [n [I G]].
+  unfold py_bind; simpl. rewrite zip_pos_nil. simpl.
+  destruct (bind_kw s m [] []) as [[asg' extra]|x] eqn:B.
+  - rewrite (fill_missing (params s) asg' n); [reflexivity|unfold params; apply in_or_app; left; assumption|].
+    eapply bind_kw_keeps_unbound; [exact B|reflexivity|]. apply kget_none_not_in; assumption.
+  - apply bind_kw_err in B; subst; reflexivity.
+Qed.
+
+(* ---- flags are not touched by later bindings --------------------------------------------------------------- *)
+Lemma late_one_flags : forall q s st k v st', late_one q s st k v = Ok st' -> f_ov st' = f_ov st /\ f_ie st' = f_ie st.
+Proof.
+  intros q s st k v st' H. unfold late_one in H.
+  destruct (is_va s k).
+  - destruct (vals_of_val v); inversion H; subst; split; reflexivity.
+  - destruct (accepts_key s k); [|discriminate].
+    destruct (kget k (attrs st)) as [old|]; [destruct (same_scalar old v); [destruct (q_noop_rebind q)|]|];
+      inversion H; subst; split; reflexivity.
+Qed.
+Lemma late_all_flags : forall q s lates st st', late_all q s st lates = Ok st' -> f_ov st' = f_ov st /\ f_ie st' = f_ie st.
+Proof.
+  intros q s; induction lates as [|[k v] r IH]; intros st st' H; simpl in H.
+  - inversion H; subst; split; reflexivity.
+  - destruct (late_one q s st k v) as [st1|] eqn:L; [|discriminate].
+    destruct (late_one_flags _ _ _ _ _ _ L) as [A B]. destruct (IH _ _ H) as [C D]. split; congruence.
+Qed.
+Lemma ctor_finish_flags : forall s bk vb ov ie, f_ov (ctor_finish s bk vb ov ie) = ov /\ f_ie (ctor_finish s bk vb ov ie) = ie.
+Proof. intros. unfold ctor_finish. destruct (classify (params s) bk [] _). split; reflexivity. Qed.
+
+(* ---- the functor binds the effective arguments ----------------------------------------------------------------- *)
+Definition late_names_ok (s : sig) (lates : list (name * val)) : Prop :=
+  Forall (fun kv => accepts_key s (fst kv) = true) lates.
+Definition call_ok (s : sig) (c : call) : Prop :=
+  NoDup (map fst (ckw c)) /\ forall k, In k (map fst (ckw c)) -> is_va s k = false.
+
+Theorem functor_binds_effective_arguments : forall q s ctor ov ie lates c ovo ieo,
+  wf_sig s -> q_noop_rebind q = false -> late_names_ok s lates -> call_ok s c ->
+  functor_bind q s ctor ov ie lates c ovo ieo =
+  spec_outcome s ctor lates c (match ovo with Some b => b | None => ov end) (match ieo with Some b => b | None => ie end).
+Proof.
+  intros q s ctor ov ie lates c ovo ieo W Q LN [ND NV].
+  unfold functor_bind, spec_outcome, effective.
+  rewrite functor_ctor_supply by assumption.
+  destruct (supply s eff0 ctor false false) as [e1|x] eqn:S1; [|reflexivity].
+  assert (eff_ok s e1) as OK1 by (eapply supply_ok; [assumption|apply eff0_ok|exact S1]).
+  pose proof (ctor_finish_rel s e1 ov ie W OK1) as R1.
+  pose proof (late_all_rel q s lates _ e1 W OK1 R1 LN Q) as L.
+  destruct (late_all q s (ctor_finish s (enamed e1) (evar e1) ov ie) lates) as [st2|a] eqn:L2;
+    destruct (supply_lates s e1 lates) as [e2|b] eqn:S2; try contradiction; [|congruence].
+  destruct L as [R2 OK2].
+  destruct (late_all_flags _ _ _ _ _ L2) as [FO FI].
+  destruct (ctor_finish_flags s (enamed e1) (evar e1) ov ie) as [CO CI].
+  unfold functor_call. rewrite (functor_call_args_supply s st2 e2 c ovo ieo W OK2 R2 ND NV).
+  rewrite FO, FI, CO, CI.
+  destruct (supply s e2 c _ _) as [e3|y]; [|reflexivity].
+  unfold effective_call.
+  destruct (list_args (pos s) (enamed e3)) as [[la|] K] eqn:LA; [reflexivity|].
+  symmetry. eapply missing_positional_fails; eauto.
+Qed.
+
+(* ---- the open finding: a later binding that stores the integer already shown ---------------------------- *)
+Fixpoint lates_avoid_noop (s : sig) (st : fstate) (lates : list (name * val)) : Prop :=
+  match lates with
+  | [] => True
+  | (k, v) :: r =>
+      (is_va s k = false -> forall old, kget k (attrs st) = Some old -> same_scalar old v = false) /\
+      (forall st', late_one {| q_noop_rebind := false |} s st k v = Ok st' -> lates_avoid_noop s st' r)
+  end.
+
+Lemma late_one_quirk_irrelevant : forall q s st k v,
+  (is_va s k = false -> forall old, kget k (attrs st) = Some old -> same_scalar old v = false) ->
+  late_one q s st k v = late_one {| q_noop_rebind := false |} s st k v.
+Proof.
+  intros q s st k v H. unfold late_one. destruct (is_va s k) eqn:V; [reflexivity|].
+  destruct (accepts_key s k); [|reflexivity].
+  destruct (kget k (attrs st)) as [old|] eqn:G; [|reflexivity].
+  rewrite (H eq_refl old eq_refl). reflexivity.
+Qed.
+Lemma late_all_quirk_irrelevant : forall q s lates st, lates_avoid_noop s st lates ->
+  late_all q s st lates = late_all {| q_noop_rebind := false |} s st lates.
+Proof.
+  intros q s; induction lates as [|[k v] r IH]; intros st H; simpl in *; [reflexivity|].
+  destruct H as [H1 H2]. rewrite (late_one_quirk_irrelevant q s st k v H1).
+  destruct (late_one {| q_noop_rebind := false |} s st k v) as [st'|] eqn:L; [|reflexivity].
+  apply IH. apply H2. reflexivity.
+Qed.
+
+Theorem functor_binds_effective_arguments_partial : forall q s ctor ov ie lates c ovo ieo,
+  wf_sig s -> late_names_ok s lates -> call_ok s c ->
+  (forall st, functor_ctor s ctor ov ie = Ok st -> lates_avoid_noop s st lates) ->
+  functor_bind q s ctor ov ie lates c ovo ieo =
+  spec_outcome s ctor lates c (match ovo with Some b => b | None => ov end) (match ieo with Some b => b | None => ie end).
+Proof.
+  intros q s ctor ov ie lates c ovo ieo W LN CO AV.
+  rewrite <- (functor_binds_effective_arguments {| q_noop_rebind := false |}) by (assumption || reflexivity).
+  unfold functor_bind. destruct (functor_ctor s ctor ov ie) as [st|] eqn:C; [|reflexivity].
+  rewrite (late_all_quirk_irrelevant q s lates st (AV st eq_refl)). reflexivity.
+Qed.
+
+(* def f(a, b=11): x = f.partial(5); x.rebind(b=11); x(b=7) *)
+Definition witness_sig : sig := {| pos := [(1, None); (2, Some (VInt 11))]; varargs := None; kwonly := []; varkw := None |}.
+Lemma noop_rebind_refutes : exists q s ctor lates c,
+  wf_sig s /\ late_names_ok s lates /\ call_ok s c /\
+  functor_bind q s ctor false false lates c None None <> spec_outcome s ctor lates c false false.
+Proof.
+  exists {| q_noop_rebind := true |}, witness_sig, {| cpos := [VInt 5]; ckw := [] |}, [(2, VInt 11)],
+         {| cpos := []; ckw := [(2, VInt 7)] |}.
+  split; [|split; [|split]].
+  - constructor; [|intros a H; discriminate]. simpl.
+    constructor; [intros [H|H]; [discriminate|exact H]|]. constructor; [intros H; exact H|constructor].
+  - constructor; [reflexivity|constructor].
+  - split; [constructor; [intros H; exact H|constructor]|]. intros k [H|H]; [subst; reflexivity|contradiction].
+  - vm_compute. intros H; discriminate.
+Qed.
+
+(* a non-trivial instance of the hypotheses: def f(a, b=11, *args, k, m=21, **kw) *)
+Definition example_sig : sig :=
+  {| pos := [(1, None); (2, Some (VInt 11))]; varargs := Some 10; kwonly := [(4, None); (5, Some (VInt 21))]; varkw := Some 11 |}.
+Lemma example_sig_wf : wf_sig example_sig.
+Proof.
+  constructor.
+  - simpl. repeat (constructor; [simpl; intuition discriminate|]). constructor.
+  - intros a H. inversion H; subst. simpl. intuition discriminate.
+Qed.
+Lemma example_hypotheses :
+  late_names_ok example_sig [(2, VInt 3); (20, VInt 1); (10, VList [1%Z; 2%Z])] /\
+  call_ok example_sig {| cpos := [VInt 7]; ckw := [(4, VInt 1); (21, VInt 2)] |}.
+Proof.
+  split.
+  - repeat (constructor; [reflexivity|]). constructor.
+  - split.
+    + simpl. repeat (constructor; [simpl; intuition discriminate|]). constructor.
+    + simpl. intros k [H|[H|H]]; subst; try reflexivity; contradiction.
+Qed.
